@@ -519,17 +519,29 @@ def check_lookup(cx: Cx, fn_q: str, container: Term, key: Term, exc: str, throw:
     cases = [('present', present), ('absent-throw', f_and(f_not(present), t)), ('absent-quiet', f_and(f_not(present), f_not(t)))]
     ok = True
     seen = set()
+    from sa.terms import subst_formula, subst_term, subst_atoms, AIs, FTrue as _FT, FFalse as _FF
+    gets = [App('.get', (container, key)), App('.get', (container, key, Const(None)))]
+
+    def in_case(x, cname, formula=True):
+        """`container.get(key)` read in the case at hand: the entry when the key is present, None when it is absent."""
+        rep = Sub(container, key) if cname == 'present' else Const(None)
+        mp = {g: rep for g in gets}
+        if not formula:
+            return subst_term(x, mp) if x is not None and not isinstance(x, str) else x
+        y = subst_formula(x, mp)
+        return subst_atoms(y, lambda a: (_FT if isinstance(a, AIs) and a.a == Const(None) and a.b == Const(None) else None))
     for p in cx.walker.paths(fn, WalkOptions(unroll=1)):
-        c = strip_versions(p.cond)
+        c0 = strip_versions(p.cond)
         for cname, case in cases:
-            if implies(c, f_not(case)) is None:
+            c = in_case(c0, cname)
+            if implies(c, f_not(case)) is None or implies(f_and(c, case), _FF) is None:
                 continue            # this path cannot occur in this case
             if cname == 'absent-throw' and implies(c, f_not(present)) is not None and implies(c, present) is None:
                 continue
             F = f_and(c, case)
             where = cx.where(fn, p.last.line if p.last else None)
             if cname == 'present':
-                v = restrict_term(p.last.data.get('value'), F) if p.end == 'return' else None
+                v = restrict_term(in_case(strip_versions(p.last.data.get('value')), cname, False), F) if p.end == 'return' else None
                 if p.end == 'return' and isinstance(v, Sub) and strip_versions(v.base) == container and v.index == key:
                     seen.add(cname)
                 else:
@@ -545,7 +557,8 @@ def check_lookup(cx: Cx, fn_q: str, container: Term, key: Term, exc: str, throw:
                                  f"{fn.qualname}: absent key with {throw} set must raise {exc} (path ends in {p.end})", where=where)
                     ok = False
             else:
-                v = restrict_term(p.last.data.get('value'), F) if p.end == 'return' else (Const(None) if p.end == 'fall' else '?')
+                v = restrict_term(in_case(strip_versions(p.last.data.get('value')), cname, False), F) if p.end == 'return' else \
+                    (Const(None) if p.end == 'fall' else '?')
                 if v == Const(None):
                     seen.add(cname)
                 else:
